@@ -289,6 +289,7 @@ struct Registrar {
 };
 
 inline int g_asan_hits = 0;
+inline int g_tsan_hits = 0; // written from the reporting thread; read between cases only
 
 struct Totals {
     std::map<std::string, uint64_t> sum;
@@ -441,7 +442,7 @@ inline bool match_filter(const std::string &name, const std::string &filter) {
 }
 
 inline void run_one(Ctx &c) {
-    int asan_before = g_asan_hits;
+    int asan_before = g_asan_hits, tsan_before = g_tsan_hits;
     try {
         c.cfg.fn(c);
     } catch (const std::exception &e) {
@@ -451,6 +452,8 @@ inline void run_one(Ctx &c) {
     }
     if (g_asan_hits != asan_before)
         c.violation("asan_report", J().num("reports", g_asan_hits - asan_before));
+    if (g_tsan_hits != tsan_before)
+        c.violation("tsan_report", J().num("reports", g_tsan_hits - tsan_before).str("where", "construction / queries of this case (see the report in the replay file)"));
 }
 
 /// Engines call this from main() after their configs have been registered by static initialisers.
@@ -537,6 +540,17 @@ inline int vf_main(int argc, char **argv, const char *engine) {
 
 // ASan calls this (weak in the runtime) before printing each report; in recover mode the process continues and the
 // case loop turns the counter change into an `asan_report` violation attributed to the running case.
+#if defined(__SANITIZE_THREAD__)
+#define VF_TSAN 1
+#elif defined(__has_feature)
+#if __has_feature(thread_sanitizer)
+#define VF_TSAN 1
+#endif
+#endif
+#ifdef VF_TSAN
+// ThreadSanitizer calls this (weak in the runtime) for every report; counted like ASan reports (kind `tsan_report`)
+extern "C" __attribute__((weak, used)) void __tsan_on_report(void *) { ++vf::g_tsan_hits; }
+#endif
 #if defined(__SANITIZE_ADDRESS__)
 extern "C" __attribute__((weak, used)) void __asan_on_error() {
     ++vf::g_asan_hits;
